@@ -19,3 +19,7 @@ import RedkaModel.Props.C01
 #print axioms Redka.Props.C01.overflow_deviates
 #print axioms Redka.Props.C01.full_strength_is_false
 #print axioms Redka.Props.C01.incr_arg_out_of_range
+#print axioms Redka.Props.C01.valueFloat_format
+#print axioms Redka.Props.C01.incrfloat_roundtrip
+#print axioms Redka.Props.C01.incrfloat_nonnumeric_notrace
+#print axioms Redka.Float.parse_format
